@@ -112,6 +112,24 @@ def gen_rounds(seed, tier, run):
             out.append(f"hsplit {a} {z(parts)}")
             out.append(f"vsplit {a} {z(parts)}")
             out.append(f"dsplit {a} {z(parts)}")
+    # long axes: splits into many parts and joins of long blocks
+    for sh in ([17], [33], [64], [100], [2, 17], [17, 3], [2, 9, 2], [33, 2]):
+        for ax in range(len(sh)):
+            ln = sh[ax]
+            for parts in sorted({1, 2, 3, 5, 7, 8, ln - 1, ln, ln + 1, ln // 2}):
+                if parts < 1:
+                    continue
+                split_idx.append((len(out), sh, ax))
+                out.append(f"array_split {arr(sh)} {z(parts)} {z(ax)}")
+                out.append(f"split {arr(sh)} {z(parts)} {z(ax)}")
+            other = list(sh); other[ax] = rng.choice([1, 9, 31])
+            out.append(f"concatenate {L([arr(sh), arr(other, base=1000), arr(sh, base=3000)])} {z(ax)}")
+            out.append(f"append {arr(sh)} {arr(other, base=1000)} {z(ax)}")
+        out.append(f"append {arr(sh)} {arr([41], base=1000)} n")
+        out.append(f"stack {L([arr(sh), arr(sh, base=1000)])} z{len(sh)}")
+        out.append(f"vstack {L([arr(sh), arr(sh, base=1000)])}")
+        out.append(f"dstack {L([arr(sh), arr(sh, base=1000)])}")
+        out.append(f"column_stack {L([arr(sh), arr(sh, base=1000)])}")
     n_rand = 200 if tier == "quick" else 4000
     for _ in range(n_rand):
         sh = rand_shape(rng, 4, (1, 2, 3, 4))
